@@ -160,6 +160,11 @@ def snapshot_cases():
                                               A.FuncStmt("cond", [V("c")], False, [A.If([(V("c"), [A.Return(S("then"))])], None), P(S("after if")), A.Return(S("fell through"))]), P(A.call("cond", A.Bool(True))), P(A.call("cond", A.Bool(False))),
                                               A.FuncStmt("both", [V("c")], False, [A.If([(V("c"), [A.Return(S("then"))])], [A.Return(S("else"))]), P(S("WRONG")), A.Return(S("WRONG"))]), P(A.call("both", A.Bool(False))),
                                               A.FuncStmt("blk", [], False, [A.Block([A.For(V("_"), A.lst(), [A.Return(I(1))])]), A.Return(I(2))]), P(A.call("blk"))]
+    # an object written in place is an object like any other: later entries replace earlier ones, keys come in ascending order
+    cases["for_over_literal_object"] = [A.For(A.lst(V("k"), V("v")), A.obj(("b", I(1)), ("a", I(2)), ("b", I(3)), ("", I(4)), ("B", I(5))), [P(V("k")), P(V("v"))]),
+                                        A.For(V("kv"), A.ObjectE([A.Pair(S("z"), I(1)), A.Single(A.obj(("y", I(2)), ("z", I(0))), True, False), A.Pair(S("x"), I(3))]), [P(V("kv"))]),
+                                        A.For(A.lst(V("i"), V("v")), A.lst(I(3), I(1), I(2)), [P(A.lst(V("i"), V("v")))]), A.For(A.lst(V("i"), V("c")), S("bca"), [P(A.Bin("+", V("c"), S("")))]),
+                                        A.For(A.lst(V("k"), V("_")), A.ObjectE([A.Pair(A.Bin("+", S("k"), S("2")), I(1)), A.Pair(S("k1"), I(2))]), [P(V("k"))])]
     cases["empty_bodies"] = [A.For(V("_"), A.lst(I(1), I(2)), []), P(S("a")), A.Declare(V("n"), I(0)), A.While(A.Bin("<", V("n"), I(0)), []), P(S("b")),
                              A.FuncStmt("e", [], False, []), P(A.call("e")), A.Block([A.Block([P(S("c"))])]), A.For(V("_"), A.lst(), W()), A.For(V("_"), S(""), W()), A.For(V("_"), A.obj(), W()),
                              A.For(V("_"), A.Range(I(2), I(2)), W()), P(S("d"))]
